@@ -158,6 +158,12 @@ type FailoverController struct {
 	// role-change callback); a second invocation must not promote again.
 	failoverRunning bool
 
+	// failoverGen identifies the current arming of failoverTimer. It changes
+	// whenever a failover is scheduled or a pending one is canceled, so that a
+	// timer callback that was already running when its timer was stopped does
+	// not act on a later partner-down report.
+	failoverGen uint64
+
 	// Timers
 	failoverTimer *time.Timer
 	failbackTimer *time.Timer
@@ -301,7 +307,7 @@ func (c *FailoverController) ForceFailover(reason string) error {
 
 	// initiateFailover only marks the failover as in progress and announces it;
 	// carry it out now, otherwise the controller would stay in progress forever.
-	c.executeFailover(reason)
+	c.executeFailover(reason, 0)
 
 	if c.CurrentRole() != RoleActive {
 		return fmt.Errorf("failover did not complete")
@@ -353,8 +359,10 @@ func (c *FailoverController) handleHealthEvent(event HealthEvent) {
 			if c.failoverTimer != nil {
 				c.failoverTimer.Stop()
 			}
+			c.failoverGen++
+			gen := c.failoverGen
 			c.failoverTimer = time.AfterFunc(c.config.FailoverDelay, func() {
-				c.executeFailover("partner health check failure")
+				c.executeFailover("partner health check failure", gen)
 			})
 		}
 
@@ -366,6 +374,7 @@ func (c *FailoverController) handleHealthEvent(event HealthEvent) {
 			if c.failoverTimer != nil {
 				c.failoverTimer.Stop()
 			}
+			c.failoverGen++
 			c.state = FailoverStateNormal
 			atomic.AddUint64(&c.failoversCanceled, 1)
 
@@ -444,13 +453,16 @@ func (c *FailoverController) initiateFailover(reason string) error {
 	return nil
 }
 
-// executeFailover performs the actual failover.
-func (c *FailoverController) executeFailover(reason string) {
+// executeFailover performs the actual failover. gen is the arming of the
+// failover timer on whose behalf it runs, 0 when no timer is involved.
+func (c *FailoverController) executeFailover(reason string, gen uint64) {
 	c.mu.Lock()
 
 	// A failover that another invocation is already carrying out (timer and
-	// operator command, or two commands) is not carried out a second time.
-	if c.failoverRunning || (c.state != FailoverStatePending && c.state != FailoverStateInProgress) {
+	// operator command, or two commands) is not carried out a second time, and
+	// the callback of a timer that has been stopped or re-armed since is stale.
+	if c.failoverRunning || (gen != 0 && gen != c.failoverGen) ||
+		(c.state != FailoverStatePending && c.state != FailoverStateInProgress) {
 		c.mu.Unlock()
 		return
 	}
